@@ -226,6 +226,13 @@ func (res *Resource) AddVersion(version string, available, currentRelease, preRe
 	res.Lock()
 	defer res.Unlock()
 
+	// parse to semver first: versions are kept and compared in their normalized form
+	sv, err := semver.NewVersion(version)
+	if err != nil {
+		return err
+	}
+	version = sv.String()
+
 	// reset current release flags
 	if currentRelease {
 		for _, rv := range res.Versions {
@@ -244,15 +251,9 @@ func (res *Resource) AddVersion(version string, available, currentRelease, preRe
 
 	// create new version if none found
 	if rv == nil {
-		// parse to semver
-		sv, err := semver.NewVersion(version)
-		if err != nil {
-			return err
-		}
-
 		rv = &ResourceVersion{
 			resource:      res,
-			VersionNumber: sv.String(), // Use normalized version.
+			VersionNumber: version,
 			semVer:        sv,
 		}
 		res.Versions = append(res.Versions, rv)
